@@ -482,7 +482,7 @@ func checkC15(c C15Case) (*Violation, []string, *caseInfo) {
 	if trace15 != nil {
 		ab := strSeed(w.nodes[0].print + w.nodes[1].print)
 		for _, s := range w.diffs {
-			*trace15 = append(*trace15, fmt.Sprintf("construct - %s operands=%x output=%s", s.name, ab, fingerprint(s.live)))
+			*trace15 = append(*trace15, fmt.Sprintf("construct - %s operands=%x output=%q", s.name, ab, fingerprint(s.live)))
 		}
 	}
 	// invariant 2 must hold already after construction (Diff is in the list)
@@ -526,7 +526,7 @@ func checkC15(c C15Case) (*Violation, []string, *caseInfo) {
 		}
 		w.log = append(w.log, fmt.Sprintf("call %d %s d=%d o=%d n=%d -> %x (reference %x)", i, call.Op, call.D, call.O, call.N, strSeed(got.String()), strSeed(want.String())))
 		if trace15 != nil {
-			*trace15 = append(*trace15, fmt.Sprintf("call %d %s operands=%x output=%s", i, call.Op, strSeed(w.operandPrint()), got.String()))
+			*trace15 = append(*trace15, fmt.Sprintf("call %d %s operands=%x output=%q", i, call.Op, strSeed(w.operandPrint()), got.String()))
 		}
 		if want.pan != "" && got.pan != "" {
 			continue // the call panics on pristine input too: C13's business
@@ -830,6 +830,12 @@ func genCase15(c *Chooser) C15Case {
 		a.set("longs", &Val{K: 'a', Elems: []*Val{long(0), long(1), long(2)}})
 		b.set("longs", &Val{K: 'a', Elems: []*Val{long(3), long(1), long(4), long(5)}})
 	}
+	if a.K == 'o' && b.K == 'o' && c.Chance(1, 3) {
+		// prose: long strings with spaces, which a YAML emitter may fold
+		prose := "the quick brown fox jumps over the lazy dog and then keeps running well past the eightieth column of this page"
+		a.set("prose", vs(prose))
+		b.set("prose", vs(prose+" and on"))
+	}
 	if a.K == 'o' && b.K == 'o' && c.Chance(1, 30) {
 		// a large keyed set: most members keep their identity, a few change
 		big := func(changed map[int]bool) *Val {
@@ -917,7 +923,7 @@ func genCase15(c *Chooser) C15Case {
 	nd := len(cs.Opts) + len(cs.Texts)
 	ncall := c.Range(1, 24)
 	ops := []string{"Diff", "DiffBA", "Equals", "Json", "Yaml", "Render", "RenderColor", "RenderPatch", "RenderMerge", "ElemRender", "ElemRenderColor", "Read", "ReadDoc", "PatchPrivate"}
-	weights := []int{3, 1, 2, 2, 1, 4, 2, 5, 5, 1, 1, 4, 1, 3}
+	weights := []int{3, 1, 2, 2, 2, 4, 2, 5, 5, 1, 1, 4, 1, 3}
 	for i := 0; i < ncall; i++ {
 		op := ops[c.Pick(weights...)]
 		call := Call{Op: op, D: c.Int(nd + i/2), N: c.Int(2), O: c.Int(len(cs.Opts)), E: c.Int(4)}
